@@ -81,6 +81,36 @@ impl Out {
             self.failures.push(serde_json::json!({"what": what, "input": input, "impl": got, "expected": want, "last_op": self.ops.last().cloned().unwrap_or_default()}));
         }
     }
+    /// Recombination: new operation lines made of two recorded lines of the same operation (same token count) by taking one
+    /// argument from the other line, executed between its two parents. The mixed line shares all but one component with its
+    /// neighbour — what a memo keyed on part of the input confuses — and goes through the model / spec comparison like any
+    /// other line. Only operations whose arguments are independent values are recombined (a fixed list: key derivation, sub-address, key arithmetic, scan and amount-opening operations).
+    pub fn recombine(&mut self, seed: u64, n: usize) {
+        let mut rng = Rng::new(seed ^ 0x7ec0_4b1e);
+        let mut by_op: BTreeMap<(String, usize), Vec<usize>> = BTreeMap::new();
+        for (i, l) in self.ops.iter().enumerate() {
+            // only operations whose arguments are independent values (keys, scalars, positions, indices, byte strings)
+            const SAFE: [&str; 15] = ["c07_scan ", "c08_open ", "c09_recover ", "c10_derive ", "c10_derive_wire ", "c10_derive_sender ", "c10_onetime ", "c10_onetime_recv ",
+                "c11_sub_pub ", "c11_sub_sec ", "c11_sub_addr ", "c13_add ", "c13_sub ", "c13_smul ", "c13_sadd "];
+            if l.len() > 3000 || !SAFE.iter().any(|p| l.starts_with(p)) { continue; }
+            let k = l.split(' ').count();
+            if (3..=10).contains(&k) { by_op.entry((l.split(' ').next().unwrap().to_string(), k)).or_default().push(i); }
+        }
+        let groups: Vec<Vec<usize>> = by_op.into_values().filter(|v| v.len() >= 2).collect();
+        if groups.is_empty() { return; }
+        for _ in 0..n {
+            let g = &groups[rng.below(groups.len() as u64) as usize];
+            let (a, b) = (g[rng.below(g.len() as u64) as usize], g[rng.below(g.len() as u64) as usize]);
+            let (la, lb) = (self.ops[a].clone(), self.ops[b].clone());
+            let (ta, tb): (Vec<&str>, Vec<&str>) = (la.split(' ').collect(), lb.split(' ').collect());
+            let k = rng.range(1, ta.len() as u64 - 1) as usize;
+            if ta[k] == tb[k] { continue; }
+            let mut tm = ta.clone(); tm[k] = tb[k];
+            let mixed = tm.join(" ");
+            self.op(la.clone(), false); self.op(mixed, false); self.op(lb.clone(), false); self.op(la, false);
+            self.stat("recombined");
+        }
+    }
     /// Purity re-check: every operation line must fully determine its result. A sample of the recorded operations is
     /// executed again in a shuffled order (and once more in reverse order of recording); a result that differs from the
     /// recorded one means the library carries state across calls (a cache keyed on part of the input, a scratch buffer
